@@ -59,6 +59,11 @@ func QuietErr(tag int) error { return errors.New("") }
 
 func QuietPanicker(tag int) { panic("") }
 
+// a writer that cannot take the command's output: the command runs and exits 0, collecting its output fails
+type fullWriter struct{}
+
+func (fullWriter) Write(p []byte) (int, error) { return 0, errors.New("no space left") }
+
 func Panicker(tag int) { panic("requested failure (panic value)") }
 
 var counter int
@@ -97,6 +102,9 @@ func Fail(kind string, a, b int) error {
 		mg.Deps(mg.F(PlainErr, tag))
 	case "panicdep":
 		mg.Deps(mg.F(Panicker, tag))
+	case "shwriter":
+		_, err := sh.Exec(nil, fullWriter{}, nil, "echo", "hello")
+		return err
 	case "qfatal":
 		return mg.Fatal(a)
 	case "qerr":
@@ -198,7 +206,7 @@ func c05Calls(out string) [][]string {
 }
 
 var c05Kinds = []string{"ok", "ok", "err", "fatal", "fatal", "fatalf", "sh", "panicerr", "panicfatal", "panicval", "exit", "deps", "deps", "deep", "deep", "serial", "errdep", "panicdep",
-	"qfatal", "qerr", "qdeps", "qdeep", "qserial", "qerrdep", "qpanicdep"}
+	"qfatal", "qerr", "qdeps", "qdeep", "qserial", "qerrdep", "qpanicdep", "shwriter"}
 
 func c05Code(r *rng.R) int {
 	switch r.Intn(6) {
